@@ -81,6 +81,15 @@ def _nonempty_remainder_test(test: ast.AST, blk: str) -> tuple[str, str] | None:
 def r2_tiling_loop(ctx: Ctx) -> None:
     fn = ctx.repo.func(W, "IPSWriter.write_block")
     blk, addr = fn.params()[1], fn.params()[2]
+    # a local that only names the (loop-invariant) block length reads as `len(block)`
+    import dataclasses
+
+    from ..match import inline as _inl11, single_assignments as _sa11
+
+    if not any(isinstance(n, ast.Name) and n.id == blk and isinstance(n.ctx, ast.Store) for n in ast.walk(fn.node)):
+        env11 = {k: v for k, v in _sa11(fn.node).items() if unparse(v) == f"len({blk})"}
+        if env11:
+            fn = dataclasses.replace(fn, node=ast.fix_missing_locations(_inl11(fn.node, env11)))
     g = CFG(fn.node)
     floops = [s for s in walk_no_nested(fn.node) if isinstance(s, ast.For)]
     wloops = [s for s in walk_no_nested(fn.node) if isinstance(s, ast.While)]
